@@ -305,6 +305,9 @@ class Port(Base):
             raise ValueError(msg)
 
         # validation
+        for port in ports:
+            if not 0 <= port <= 65535:
+                raise ValueError(f"invalid {port=}, expected 0..65535")
         operator = self._operator
         if operator in ["lt", "gt"] and len(ports) != 1:
             raise ValueError(f"invalid {operator=} with {ports=}")
